@@ -807,6 +807,12 @@ func (w *World) step(s *Step) {
 			w.noop("advance 0")
 			return
 		}
+		if time.Now().Add(time.Duration(s.Ns)).After(simClockLimit) {
+			// every fixture certificate (IdP and SPs) is valid 1990–2100; beyond that a conformant signed request is refused for a
+			// reason that has nothing to do with the library (found by a soak run that summed several ten-year jumps)
+			w.noop("advance: beyond the validity of the fixture certificates")
+			return
+		}
 		infl := w.inflight()
 		for _, t := range infl {
 			t.AdvDuring = true
@@ -952,6 +958,9 @@ func bubbleQuiescent() (quiet bool, lockWaiters int) {
 	return quiet, lockWaiters
 }
 
+// simClockLimit: the simulated clock never passes this instant (fixture certificates expire in 2100).
+var simClockLimit = time.Date(2095, 1, 1, 0, 0, 0, 0, time.UTC)
+
 func (w *World) resumeTask(t *Task, fault string) {
 	w.hist.add("resume", t.ID, t.parkedOp+" fault="+fault)
 	// mark as running before handing over so a second resume in the same step cannot pick it again
@@ -975,6 +984,16 @@ func (w *World) drain() {
 }
 
 func (w *World) mutate(s *Step) {
+	// reach probe: the environment changes while a request sits between two of its storage calls
+	for _, t := range w.inflight() {
+		w.mu.Lock()
+		n := len(t.Calls)
+		w.mu.Unlock()
+		if n >= 1 {
+			w.probe("state_changed_between_calls_of_a_request:" + s.Mut)
+			break
+		}
+	}
 	switch s.Mut {
 	case "complete", "uncomplete":
 		live := w.sessions
